@@ -189,7 +189,7 @@ pub enum ChildOutcome {
     Machinery(String),
 }
 
-pub fn run_child(code: &str, id: usize) -> ChildOutcome {
+pub fn run_child(code: &str, id: usize, limit_s: u64) -> ChildOutcome {
     let dir = format!("{VERIF_ROOT}/work/c08_{}", std::process::id());
     let _ = std::fs::create_dir_all(&dir);
     let path = format!("{dir}/case_{id}.nbt");
@@ -209,7 +209,7 @@ pub fn run_child(code: &str, id: usize) -> ChildOutcome {
         match child.try_wait() {
             Ok(Some(s)) => break Some(s),
             Ok(None) => {
-                if t0.elapsed() > Duration::from_secs(20) {
+                if t0.elapsed() > Duration::from_secs(limit_s) {
                     let _ = child.kill();
                     let _ = child.wait();
                     break None;
@@ -259,7 +259,247 @@ pub fn child_main(path: &str) -> i32 {
     }
 }
 
+
+// ------------------------------------------------------------------------------------------------
+// (c) every standard-library function x argument tuples from per-type edge alphabets
+
+pub fn function_cases(thorough: bool) -> Vec<(String, Vec<String>)> {
+    let ctx = prelude_ctx();
+    let nums: Vec<&str> = if thorough {
+        vec!["0", "1", "(-1)", "0.5", "3", "65", "2.5e-3", "NaN", "inf", "(-inf)", "(2 m)", "(0 m)", "(3 s)", "(50 percent)"]
+    } else {
+        vec!["0", "1", "(-1)", "0.5", "3", "65", "(2 m)"]
+    };
+    let strs: Vec<&str> = if thorough {
+        vec!["\"\"", "\"a\"", "\"é\"", "\"a🙂b\"", "\"日本語\"", "\"a b\"", "\"%\"", "\"1e3\"", "\"2024-01-01\"", "\"UTC\""]
+    } else {
+        vec!["\"\"", "\"ab\"", "\"é\"", "\"a🙂b\""]
+    };
+    let bools = vec!["true", "false"];
+    let dts = vec!["datetime(\"2024-02-29 12:00:00 UTC\")", "datetime(\"1969-12-31 23:59:59.5 UTC\")"];
+    let lists: Vec<&str> = vec!["[]", "[1]", "[3, 1, 2]", "[\"é\", \"a\"]", "[2 m, 1 cm]", "[[1], []]"];
+    let fns = vec!["sqr", "sin", "str_length", "id"];
+    let mut out = vec![];
+    let mut fs: Vec<(String, String)> = ctx.functions().map(|f| (f.fn_name.to_string(), f.signature_str.to_string())).collect();
+    fs.sort();
+    for (name, sig) in fs {
+        // `fn name<..>(p: T, q: U) -> R`
+        let Some(open) = sig.find('(') else { continue };
+        let mut depth = 0;
+        let mut close = None;
+        for (i, c) in sig.char_indices().skip(open) {
+            match c {
+                '(' | '[' | '<' => depth += 1,
+                ')' | ']' | '>' => {
+                    depth -= 1;
+                    if depth == 0 && c == ')' {
+                        close = Some(i);
+                        break;
+                    }
+                }
+                _ => {}
+            }
+        }
+        let Some(close) = close else { continue };
+        let inner = &sig[open + 1..close];
+        let mut params: Vec<String> = vec![];
+        let mut cur = String::new();
+        let mut d = 0;
+        for c in inner.chars() {
+            match c {
+                '(' | '[' | '<' => {
+                    d += 1;
+                    cur.push(c)
+                }
+                ')' | ']' | '>' => {
+                    d -= 1;
+                    cur.push(c)
+                }
+                ',' if d == 0 => {
+                    params.push(cur.trim().to_string());
+                    cur.clear();
+                }
+                _ => cur.push(c),
+            }
+        }
+        if !cur.trim().is_empty() {
+            params.push(cur.trim().to_string());
+        }
+        let alphabets: Vec<&Vec<&str>> = params
+            .iter()
+            .map(|p| {
+                let ty = p.split_once(':').map(|x| x.1.trim()).unwrap_or("");
+                if ty.starts_with("Fn[") {
+                    &fns
+                } else if ty.starts_with("List<") {
+                    &lists
+                } else if ty == "String" {
+                    &strs
+                } else if ty == "Bool" {
+                    &bools
+                } else if ty == "DateTime" {
+                    &dts
+                } else {
+                    &nums
+                }
+            })
+            .collect();
+        if alphabets.len() > 4 {
+            continue;
+        }
+        let mut tuples: Vec<Vec<&str>> = vec![vec![]];
+        for a in &alphabets {
+            let mut next = vec![];
+            for t in &tuples {
+                for x in a.iter() {
+                    let mut t2 = t.clone();
+                    t2.push(*x);
+                    next.push(t2);
+                }
+            }
+            tuples = next;
+        }
+        let codes: Vec<String> = tuples.iter().map(|t| format!("{name}({})", t.join(", "))).collect();
+        out.push((name, codes));
+    }
+    out
+}
+
+/// entry point of `nbmc --child c08fn <tier> <from> <to>`
+pub fn child_fn_main(args: &[String]) -> i32 {
+    use std::io::Write;
+    let thorough = args.first().map(|s| s == "thorough").unwrap_or(false);
+    let from: usize = args.get(1).and_then(|s| s.parse().ok()).unwrap_or(0);
+    let to: usize = args.get(2).and_then(|s| s.parse().ok()).unwrap_or(0);
+    let cases = function_cases(thorough);
+    let base = prelude_ctx();
+    let out = std::io::stdout();
+    for (name, codes) in cases.iter().skip(from).take(to.saturating_sub(from)) {
+        for code in codes {
+            {
+                let mut o = out.lock();
+                let _ = writeln!(o, "BEGIN\t{name}\t{code}");
+                let _ = o.flush();
+            }
+            let mut ctx = base.clone();
+            if let Err(p) = exercise(&mut ctx, code) {
+                let mut o = out.lock();
+                let _ = writeln!(o, "PANIC\t{name}\t{code}\t{}\t{}", p.site(), p.message.replace(['\n', '\t'], " ").chars().take(200).collect::<String>());
+            }
+        }
+    }
+    println!("END");
+    0
+}
+
+fn sweep_functions(rep: &mut Report) {
+    let thorough = rep.tier == Tier::Thorough;
+    let cases = function_cases(thorough);
+    let nf = cases.len();
+    let total: usize = cases.iter().map(|c| c.1.len()).sum();
+    let batch = 6usize;
+    let jobs: Vec<(usize, usize)> = (0..nf).step_by(batch).map(|a| (a, (a + batch).min(nf))).collect();
+    let exe = std::env::current_exe().unwrap();
+    struct JobOut {
+        panics: Vec<(String, String, String, String)>,
+        died: Vec<(String, String, String)>, // fn, code, how
+        machinery: Vec<String>,
+    }
+    let outs: Vec<JobOut> = par_map(jobs.len(), || (), |_, j| {
+        let (mut from, to) = jobs[j];
+        let mut jo = JobOut { panics: vec![], died: vec![], machinery: vec![] };
+        while from < to {
+            let cmd = format!("ulimit -v 6291456; exec '{}' --child c08fn {} {} {}", exe.display(), if thorough { "thorough" } else { "quick" }, from, to);
+            let child = Command::new("sh").arg("-c").arg(&cmd).stdin(Stdio::null()).stdout(Stdio::piped()).stderr(Stdio::null()).env("TZ", "UTC").spawn();
+            let Ok(mut child) = child else {
+                jo.machinery.push("cannot spawn child".into());
+                break;
+            };
+            // read stdout on a helper thread, enforce a wall limit per child
+            let mut so = child.stdout.take().unwrap();
+            let reader = std::thread::spawn(move || {
+                let mut s = String::new();
+                let _ = so.read_to_string(&mut s);
+                s
+            });
+            let t0 = Instant::now();
+            let limit = Duration::from_secs(if thorough { 300 } else { 30 });
+            let mut timed_out = false;
+            loop {
+                match child.try_wait() {
+                    Ok(Some(_)) => break,
+                    Ok(None) => {
+                        if t0.elapsed() > limit {
+                            let _ = child.kill();
+                            let _ = child.wait();
+                            timed_out = true;
+                            break;
+                        }
+                        std::thread::sleep(Duration::from_millis(10));
+                    }
+                    Err(_) => break,
+                }
+            }
+            let text = reader.join().unwrap_or_default();
+            let mut last_begin: Option<(String, String)> = None;
+            let mut ended = false;
+            for l in text.lines() {
+                let parts: Vec<&str> = l.split('\t').collect();
+                match parts[0] {
+                    "BEGIN" if parts.len() >= 3 => last_begin = Some((parts[1].to_string(), parts[2].to_string())),
+                    "PANIC" if parts.len() >= 5 => jo.panics.push((parts[1].into(), parts[2].into(), parts[3].into(), parts[4].into())),
+                    "END" => ended = true,
+                    _ => {}
+                }
+            }
+            if ended {
+                break;
+            }
+            // the child died or hung in `last_begin`
+            match last_begin {
+                Some((f, code)) => {
+                    let idx = cases.iter().position(|c| c.0 == f).unwrap_or(to);
+                    jo.died.push((f, code, if timed_out { "timeout".into() } else { "killed".into() }));
+                    from = idx + 1; // continue after the offending function
+                }
+                None => {
+                    jo.machinery.push("child produced no output".into());
+                    break;
+                }
+            }
+        }
+        jo
+    });
+    let mut unspecified = 0u64;
+    for jo in outs {
+        for (f, code, site, msg) in jo.panics {
+            rep.violation(format!("callsite:{site}"), format!("`{code}` panics: {msg} at {site}"), json!({"code": code, "prelude": true, "function": f}));
+        }
+        for (f, code, how) in jo.died {
+            // non-finite or dimension-mismatched loop bounds make library loops legitimately endless
+            if code.contains("NaN") || code.contains("inf") {
+                unspecified += 1;
+                eprintln!("[C08] unspecified ({how}): {code}");
+                continue;
+            }
+            rep.violation(format!("{how}:fn:{f}"), format!("`{code}`: the interpreter process was {how} (abort, memory limit or > time limit)"), json!({"code": code, "prelude": true, "function": f}));
+        }
+        for m in jo.machinery {
+            rep.machinery_error(m);
+        }
+    }
+    rep.states += total as u64;
+    rep.transitions += total as u64;
+    rep.evaluations += total as u64;
+    rep.validated += total as u64;
+    rep.nontrivial_extra += nf as u64;
+    rep.set("library_functions_swept", json!(nf));
+    rep.set("function_argument_tuples", json!(total));
+    rep.set("function_cases_unspecified_nonfinite_loop_bounds", json!(unspecified));
+}
+
 pub fn check(rep: &mut Report) {
+    let t_start = Instant::now();
     // (a)
     match rep.tier {
         Tier::Quick => {
@@ -276,18 +516,33 @@ pub fn check(rep: &mut Report) {
             sweep(rep, 4, &TOKENS[..36], true, "prelude");
         }
     }
+    eprintln!("[C08] token sweeps done at {:.1}s", t_start.elapsed().as_secs_f64());
+    // (c)
+    sweep_functions(rep);
+    eprintln!("[C08] function sweep done at {:.1}s", t_start.elapsed().as_secs_f64());
     // (b)
     let ts = templates();
+    let limit_s: u64 = rep.tier.pick(60, 60);
     let mut cases: Vec<(String, String)> = vec![];
     for (name, inputs) in &ts {
         for (i, code) in inputs.iter().enumerate() {
-            if rep.tier == Tier::Quick && inputs.len() == 6 && (i == 0 || i == 4) {
-                continue; // quick: 4 of the 6 repetition counts
+            if rep.tier == Tier::Quick && inputs.len() == 6 && (i != 1 && i != 3) {
+                continue; // quick: repetition counts 256 and 65536 only
+            }
+            if rep.tier == Tier::Quick && *name == "many-lets" {
+                continue; // takes more than the time limit by design of the finding; thorough only
             }
             cases.push((format!("{name}#{i}"), code.clone()));
         }
     }
-    let outs: Vec<ChildOutcome> = par_map(cases.len(), || (), |_, i| run_child(&cases[i].1, i));
+    let outs: Vec<ChildOutcome> = par_map(cases.len(), || (), |_, i| {
+        let t0 = Instant::now();
+        let o = run_child(&cases[i].1, i, limit_s);
+        if t0.elapsed().as_secs_f64() > 2.0 {
+            eprintln!("[C08] {} took {:.1}s", cases[i].0, t0.elapsed().as_secs_f64());
+        }
+        o
+    });
     let (mut fine, mut bad) = (0u64, 0u64);
     for (i, o) in outs.into_iter().enumerate() {
         let (name, code) = &cases[i];
@@ -320,7 +575,7 @@ pub fn check(rep: &mut Report) {
             ChildOutcome::Timeout => {
                 bad += 1;
                 rep.validated += 1;
-                rep.violation(format!("hang:{template}"), format!("template {name}: input `{shown}` did not finish within 20 s"), json!({"template": name, "code_prefix": shown, "child": true}));
+                rep.violation(format!("hang:{template}"), format!("template {name}: input `{shown}` did not finish within the time limit ({limit_s} s)"), json!({"template": name, "code_prefix": shown, "child": true}));
             }
             ChildOutcome::Machinery(e) => rep.machinery_error(format!("{name}: {e}")),
         }
@@ -330,7 +585,7 @@ pub fn check(rep: &mut Report) {
     rep.set("extreme_cases", json!(cases.len()));
     rep.set("extreme_cases_handled_gracefully", json!(fine));
     rep.set("extreme_cases_crashing", json!(bad));
-    rep.rule = "(a) every token string of length <= L over an alphabet with one spelling of every token kind (52 tokens; prelude session: 36-token sub-alphabet at the top length), each interpreted in a fresh clone with the result echoed or the diagnostic rendered; (b) every template x extreme value/repetition count, each in its own child process with a 20 s limit and a 6 GiB address-space limit; non-trivial = accepted token strings + extreme cases".into();
+    rep.rule = "(a) every token string of length <= L over an alphabet with one spelling of every token kind (52 tokens; prelude session: 36-token sub-alphabet at the top length), each interpreted in a fresh clone with the result echoed or the diagnostic rendered; (b) every template x extreme value/repetition count, each in its own child process with an 8 s (quick) / 20 s (thorough) limit and a 6 GiB address-space limit; (c) every standard-library function x every argument tuple from per-type edge alphabets (numbers incl. NaN/inf and dimensionful values, ASCII/multi-byte/empty strings, lists, booleans, date-times, function values), in child processes; non-trivial = accepted token strings + extreme cases + functions swept".into();
     rep.assumptions = vec![
         "the harness builds numbat with debug assertions and overflow checks (a 'checked build')".into(),
         "random byte soup is not in this family; tokenizer states needing longer contexts than L tokens are only reached through the templates".into(),
@@ -346,7 +601,7 @@ pub fn replay(case: &J) -> i32 {
         for (n, inputs) in templates() {
             if n == t {
                 let code = &inputs[idx];
-                return match run_child(code, 0) {
+                return match run_child(code, 0, 20) {
                     ChildOutcome::Fine(s) => {
                         println!("{s}: no violation on this tree");
                         0
